@@ -24,11 +24,16 @@ RULE = ("directed histories (the two repaired defects, a parse that raises half 
         "via schema_iter / long-lived maker / COBOLSchemaLoader / extended-vocabulary maker; construct standard / extended makers "
         "(kept or dropped); from_json (classmethod, instance, extended) of generated documents (clean, with type decimal, with an "
         "unknown type, with $ref) or of a document produced earlier in the history; nav() over records of ~14 generated layouts "
-        "with OCCURS DEPENDING ON and REDEFINES (counters varied per record), reading every path incl. index(), dump(), keep or "
-        "drop; re-read through a kept navigator; Schema.print / dump_iter / repr; CSV sheet with HeadingRowSchemaLoader. "
-        "Probe = parse a copybook (40%), load a document (25%), read a record (35%, half of them through a navigator kept by the "
-        "history when there is one). Branch 0 = empty history; 1x parse probe (+1 FILLER present, +2 fragment without 01), "
-        "2x load probe (+1 decimal leaf, +2 extended maker in the history), 32 read probe. distinct = distinct case lines.")
+        "with OCCURS DEPENDING ON and REDEFINES (counters varied per record; three hand-written and >= 3 generated layouts have the "
+        "ODO table INSIDE a redefined or redefining item), 75% through the ONE long-lived EBCDIC unpacker of the process and the one "
+        "loaded schema per copybook (as a sheet does), often several records of the same layout, reading every path incl. index(), "
+        "dump(), keep or drop; re-read through a kept navigator; Schema.print / dump_iter / repr; CSV sheet with "
+        "HeadingRowSchemaLoader; CSV file without heading row through a hand-written schema WITHOUT position keywords composed, in "
+        "varying column order, from per-process shared column sub-documents (sheet.set_schema). "
+        "Probe = parse a copybook (35%), load a document (22%), read CSV rows through such a hand-written schema (10%), read a "
+        "record (33%, mostly of a layout the history already read, some through a navigator kept by the history). "
+        "Branch 0 = empty history; 1x parse probe (+1 FILLER present, +2 fragment without 01), 2x load probe (+1 decimal leaf, "
+        "+2 extended maker in the history), 32 read / csv probe. distinct = distinct case lines.")
 TRIVIAL_BRANCHES = [0]
 ASSUMPTIONS = [
     "the first half of the property (documents and loaded schemas keep their initial state) has NO theorem: it is checked only "
@@ -116,6 +121,44 @@ def hand_layouts():
     return [t1, t2]
 
 
+# OCCURS DEPENDING ON inside a REDEFINES alternative: offsets inside (or after) the union move with the counter
+UNION_TEXTS = [
+    # in the REDEFINED item: PAD moves with N, TAIL does not
+    (A + "01  R.\n" + A + "    05  N PIC 9.\n" + A + "    05  A.\n"
+     + A + "        10  T OCCURS 0 TO 5 TIMES DEPENDING ON N PIC X.\n" + A + "        10  PAD PIC X(5).\n"
+     + A + "    05  B REDEFINES A PIC X(10).\n" + A + "    05  TAIL PIC X(3).\n",
+     [["N"], ["A"], ["A", "PAD"], ["A", "T"], ["A", "T", 0], ["A", "T", 0, "T"], ["A", "T", 2, "T"], ["A", "T", 4, "T"],
+      ["B"], ["TAIL"], ["REDEFINES-A"]]),
+    # in the redefiner: TAIL moves with N
+    (A + "01  R.\n" + A + "    05  N PIC 9.\n" + A + "    05  A.\n" + A + "        10  A1 PIC X(2).\n"
+     + A + "    05  B REDEFINES A.\n" + A + "        10  ITEM OCCURS 1 TO 5 TIMES DEPENDING ON N PIC XX.\n"
+     + A + "    05  TAIL PIC X(3).\n",
+     [["N"], ["A"], ["A", "A1"], ["B"], ["B", "ITEM"], ["B", "ITEM", 0, "ITEM"], ["B", "ITEM", 1, "ITEM"],
+      ["B", "ITEM", 4, "ITEM"], ["TAIL"], ["REDEFINES-A"]]),
+    # a group table in the redefiner followed by a field of the same alternative, and a second redefiner
+    (A + "01  R.\n" + A + "    05  HDR PIC X(2).\n" + A + "    05  N PIC 9.\n" + A + "    05  A PIC X(4).\n"
+     + A + "    05  B REDEFINES A.\n" + A + "        10  G OCCURS 0 TO 3 TIMES DEPENDING ON N.\n"
+     + A + "            15  G1 PIC X.\n" + A + "            15  G2 PIC 9(2).\n" + A + "        10  AFTER-G PIC X(2).\n"
+     + A + "    05  C REDEFINES A PIC 9(4).\n" + A + "    05  TAIL PIC X(2).\n" + A + "    05  FILLER PIC X.\n",
+     [["HDR"], ["N"], ["A"], ["B"], ["B", "G"], ["B", "G", 0], ["B", "G", 0, "G2"], ["B", "G", 2, "G1"], ["B", "AFTER-G"],
+      ["C"], ["TAIL"], ["FILLER-1"]]),
+]
+
+
+def union_layouts():
+    out = []
+    for text, paths in UNION_TEXTS:
+        npos = 2 if "HDR" in text else 0
+        named = [[[1, x] if isinstance(x, int) else [0, x] for x in p] for p in paths]
+        variants = []
+        for n in range(0, 6):
+            rec = [0xC1 + (i * 5 + n * 3) % 9 if i % 4 else 0xF1 + (i + n) % 9 for i in range(24)]
+            rec[npos] = 0xF0 + n
+            variants.append((rec, named))
+        out.append((text, variants))
+    return out
+
+
 def layout_pool(rng, n):
     """[(text, [(record, paths)])]"""
     pool = []
@@ -129,6 +172,37 @@ def layout_pool(rng, n):
         except AssertionError:
             continue
         trees.append(t)
+    # generated trees with OCCURS DEPENDING ON tables inside redefined / redefining groups.  The generator's own extent
+    # computation does not follow such unions, so these records get spare bytes at the end (nothing here needs the exact
+    # length: the same record goes to both interpreters)
+    union_ids = set()
+    tries = 0
+    while len(union_ids) < max(3, n // 3) and tries < 400:
+        tries += 1
+        t = LC.gen_tree(rng, max_depth=3, max_kids=4, odo_in_union=True)
+
+        def in_union_odo(x, inside):
+            inside = inside or x["redef"] is not None
+            return (inside and x["occ"] is not None and x["occ"][0] == "odo") or any(in_union_odo(k, inside) for k in x["kids"])
+        bases = set()
+
+        def redefined(x):
+            for k in x["kids"]:
+                if k["redef"] is not None:
+                    bases.add(k["redef"])
+                redefined(k)
+        redefined(t)
+
+        def base_odo(x):
+            return (x["id"] in bases and LC.contains_odo(x)) or any(base_odo(k) for k in x["kids"])
+        if not (in_union_odo(t, False) or base_odo(t)):
+            continue
+        try:
+            LC.print_copybook(t)
+        except AssertionError:
+            continue
+        trees.append(t)
+        union_ids.add(id(t))
     for t in trees:
         names = LC.assign_names(t)
         text = LC.print_copybook(t)
@@ -139,13 +213,15 @@ def layout_pool(rng, n):
             if total > 400:
                 continue
             rec = LC.make_record(total, counters, env, False)
+            if id(t) in union_ids:
+                rec = rec + [0xC1 + (i * 7) % 9 for i in range(24)]
             named = [[[0, names[x]] if k == 0 else [1, x] for k, x in p] for p in paths if p]
             if len(named) > 40:
                 named = rng.sample(named, 40)
             variants.append((rec, named))
         if variants:
             pool.append((text, variants))
-    return pool
+    return pool + union_layouts()
 
 
 ATOMS = ["string", "integer", "number", "boolean", "null"]
@@ -214,6 +290,9 @@ CSV_ROWS = [[["Name", "Zip Code", "Amount ($)"], ["a", "12345", "1.50"], ["b", "
             [["Col A", "Col A2", "C"], ["p", "q", "r"]]]
 
 
+CSV_COLS = ["name", "amount", "zip", "code"]
+
+
 class Pools:
     def __init__(self, rng, thorough):
         self.rng = rng
@@ -231,13 +310,30 @@ class Pools:
         # a private copy per use: the probe process and the history process must not share anything anyway
         return json.loads(json.dumps(self.rng.choice(self.docs)))
 
-    def nav(self):
-        text, variants = self.rng.choice(self.layouts)
-        rec, paths = self.rng.choice(variants)
+    def nav(self, history=()):
+        """a record of some layout; often another record of a layout the history has already read (same sheet)"""
+        rng = self.rng
+        used = [o["text"] for o in history if o.get("op") == "nav"]
+        by_text = dict(self.layouts)
+        r = rng.random()
+        if r < 0.15:
+            text, variants = rng.choice(self.layouts[-len(UNION_TEXTS):])
+        elif used and r < 0.55:
+            text = rng.choice(used)
+            variants = by_text[text]
+        else:
+            text, variants = rng.choice(self.layouts)
+        rec, paths = rng.choice(variants)
         return text, rec, paths
 
+    def csv_plain(self):
+        rng = self.rng
+        cols = rng.sample(CSV_COLS, rng.randint(2, 4))
+        rows = [[f"{c}-{i}" for c in cols] for i in range(rng.randint(1, 3))]
+        return cols, rows
 
-def random_op(p, rng):
+
+def random_op(p, rng, history=()):
     r = rng.random()
     if r < 0.25:
         return {"op": "parse", "text": p.text(), "via": rng.choice(["schema_iter"] * 5 + ["maker"] * 3 + ["loader", "ext", "ext"])}
@@ -248,30 +344,39 @@ def random_op(p, rng):
         if rng.random() < 0.6:
             return {"op": "load", "doc": p.doc(), "via": via}
         return {"op": "load", "doc": None, "ref": rng.randint(0, 50), "via": via}
-    if r < 0.77:
-        text, rec, paths = p.nav()
-        return {"op": "nav", "text": text, "record": rec, "paths": paths, "keep": rng.random() < 0.5, "dump": rng.random() < 0.2}
-    if r < 0.83:
+    if r < 0.76:
+        text, rec, paths = p.nav(history)
+        return {"op": "nav", "text": text, "record": rec, "paths": paths, "keep": rng.random() < 0.5, "dump": rng.random() < 0.2,
+                "unp": "shared" if rng.random() < 0.75 else "new"}
+    if r < 0.81:
         return {"op": "reread", "k": rng.randint(0, 20)}
-    if r < 0.88:
+    if r < 0.85:
         return {"op": "drop"}
-    if r < 0.94:
+    if r < 0.89:
         return {"op": "print", "k": rng.randint(0, 20)}
-    return {"op": "csv", "rows": rng.choice(CSV_ROWS)}
+    if r < 0.93:
+        return {"op": "csv", "rows": rng.choice(CSV_ROWS)}
+    cols, rows = p.csv_plain()
+    return {"op": "csv_schema", "cols": cols, "rows": rows}
 
 
 def random_probe(p, rng, history):
     r = rng.random()
-    if r < 0.40:
+    if r < 0.35:
         return {"probe": "parse", "text": p.text(), "via": rng.choice(["schema_iter", "schema_iter", "maker"])}
-    if r < 0.65:
+    if r < 0.57:
         return {"probe": "load", "doc": p.doc()}
+    if r < 0.67:
+        cols, rows = p.csv_plain()
+        return {"probe": "csv_read", "cols": cols, "rows": rows}
     kept = [o for o in history if o["op"] == "nav" and o.get("keep")]
-    if kept and rng.random() < 0.6:
+    if kept and rng.random() < 0.4:
         o = rng.choice(kept)
-        return {"probe": "read", "text": o["text"], "record": o["record"], "paths": o["paths"], "use_kept": rng.random() < 0.8}
-    text, rec, paths = p.nav()
-    return {"probe": "read", "text": text, "record": rec, "paths": paths, "use_kept": rng.random() < 0.5}
+        return {"probe": "read", "text": o["text"], "record": o["record"], "paths": o["paths"], "use_kept": rng.random() < 0.8,
+                "unp": "shared"}
+    text, rec, paths = p.nav(history)
+    return {"probe": "read", "text": text, "record": rec, "paths": paths, "use_kept": rng.random() < 0.5,
+            "unp": "shared" if rng.random() < 0.8 else "new"}
 
 
 def directed(p):
@@ -315,6 +420,25 @@ def directed(p):
                         "probe": {"probe": "read", "text": text, "record": r1, "paths": p1, "use_kept": True}})
             out.append({"history": [nav(r1, p1, False)] * 3 + [{"op": "print", "k": 0}],
                         "probe": {"probe": "read", "text": text, "record": r0, "paths": p0, "use_kept": False}})
+    # one long-lived unpacker, one loaded schema, records with DIFFERENT counters, ODO inside a REDEFINES alternative
+    for text, variants in p.layouts[-len(UNION_TEXTS):]:
+        nav = lambda n, keep=False, unp="shared": {"op": "nav", "text": text, "record": variants[n][0], "paths": variants[n][1],
+                                                    "keep": keep, "dump": False, "unp": unp}
+        rd = lambda n, unp="shared": {"probe": "read", "text": text, "record": variants[n][0], "paths": variants[n][1],
+                                      "use_kept": False, "unp": unp}
+        out.append({"history": [nav(3), nav(1)], "probe": rd(2)})
+        out.append({"history": [nav(1)], "probe": rd(4)})
+        out.append({"history": [nav(5, keep=True), nav(0), nav(2, keep=True)], "probe": rd(1)})
+        out.append({"history": [nav(2), nav(2)], "probe": rd(3, "new")})
+    # CSV files without heading row read through hand-written schemas WITHOUT position keywords that are composed
+    # from shared column sub-documents in different orders
+    cs = lambda cols: {"op": "csv_schema", "cols": cols, "rows": [[f"{c}-{i}" for c in cols] for i in range(2)]}
+    cr = lambda cols: {"probe": "csv_read", "cols": cols, "rows": [[f"{c}-{i}" for c in cols] for i in range(2)]}
+    out.append({"history": [cs(["name", "amount"])], "probe": cr(["amount", "name"])})
+    out.append({"history": [cs(["name", "amount"])], "probe": cr(["name", "amount"])})
+    out.append({"history": [cs(["zip", "name", "amount"]), cs(["amount", "zip"]), {"op": "print", "k": 0}],
+                "probe": cr(["name", "zip", "amount", "code"])})
+    out.append({"history": [cs(["code", "zip"]), {"op": "csv", "rows": CSV_ROWS[0]}], "probe": {"probe": "load", "doc": CLEAN_DOC}})
     # documents with references, loaded repeatedly
     refdocs = [d for d in p.docs if "FWD" in d.get("properties", {})]
     for d in refdocs[:2]:
@@ -342,7 +466,9 @@ def inputs(ctx):
     for i in range(n):
         longest = 60 if (thorough and i % 4 == 0) else 25
         k = rng.randint(3, longest)
-        hist = [random_op(p, rng) for _ in range(k)]
+        hist = []
+        for _ in range(k):
+            hist.append(random_op(p, rng, hist))
         cases.append(("random", {"history": hist, "probe": random_probe(p, rng, hist)}))
     _PLANNED[:] = [c for _, c in cases]
     yield from cases
@@ -385,7 +511,7 @@ def run_all(ctx):
             _RESULTS[k] = f.result()
 
 
-KIND = {"parse": 0, "load": 1, "read": 2}
+KIND = {"parse": 0, "load": 1, "read": 2, "csv_read": 2}
 
 
 def observe(ctx, inp):
